@@ -650,6 +650,25 @@ pub fn build_c17(quick: bool) -> Vec<Scenario> {
             v.push(Scenario::new(p, "unix_fd_reuse", "unix.fd_reuse.drop_C.new_TT.w2", Arc::new(move |e| unix_fd_reuse(e, 2, 'C', 'T', false))));
             v.push(Scenario::new(p, "unix_fd_reuse", "unix.fd_reuse.refused_connect_C.new_CC.w2", Arc::new(move |e| unix_fd_reuse(e, 2, 'C', 'C', true))));
             v.push(Scenario::new(p, "unix_fd_reuse", "unix.fd_reuse.refused_connect_T.new_CC.w2", Arc::new(move |e| unix_fd_reuse(e, 2, 'T', 'C', true))));
+            // the same with one more descriptor open: the reused number belongs to the other worker's selector
+            v.push(Scenario::new(
+                p,
+                "unix_fd_reuse",
+                "unix.fd_reuse.refused_connect_C.new_CC.fdshift1.w2",
+                Arc::new(move |e| {
+                    let _ = unsafe { libc::dup(0) };
+                    unix_fd_reuse(e, 2, 'C', 'C', true)
+                }),
+            ));
+            v.push(Scenario::new(
+                p,
+                "unix_fd_reuse",
+                "unix.fd_reuse.refused_connect_T.new_CC.fdshift1.w2",
+                Arc::new(move |e| {
+                    let _ = unsafe { libc::dup(0) };
+                    unix_fd_reuse(e, 2, 'T', 'C', true)
+                }),
+            ));
         }
         // plain threads wait in std::thread::park, which may return spuriously
         v.push(Scenario::new(p, "thread_io_spurious_park", format!("unix.CT.len5.chunk1.buf64.spurious_park.w{}", w), Arc::new(move |e| unix_stream(e, w, 'C', 'T', 5, 1, 64, false, 1))).spurious());
